@@ -530,7 +530,7 @@ func main() {
 	r := ev.Start("C11")
 	defer r.RecoverMain()
 	defer world.Cleanup()
-	r.SetBudget(ev.Pick(r, 90*time.Second, 25*time.Minute))
+	r.SetBudget(ev.Pick(r, 240*time.Second, 25*time.Minute))
 	r.Assume("steady state: all application changes are made while the syncer glue runs (changes made while it is down are documented to be treated differently)",
 		"remote versions are strictly older or strictly newer than local ones (ties are C02's subject), so the model needs no tie-break",
 		"a branch is not expanded further after a mismatch with the model")
